@@ -19,6 +19,11 @@
 //!   physrec torn <j>                          -> ok   (after every rec line; j uniform in
 //!       0..=ent+val: the model re-applies the first j entry-level writes, then the whole record)
 //!   physrec get <hexkey32>                    -> none | some <len>:<fnv1a64>
+//!   physrec initk 16 preimage|rc purge|nopurge -> ok   (instead of `init`: seed % 6 == 2 preimage,
+//!       seed % 6 == 1 rc; every Set of a key carries the key's contract token)
+//!   physrec ref <hexkey32>                    -> ok   (Operation::Reference, rc columns only)
+//!   physrec getrc <hexkey32>                  -> none | some <len>:<fnv1a64> rc=<stored counter>
+//!       (rc columns, instead of `get`; the counter is read from the table files, as `r5 getrc`)
 //!   physrec reindex                           -> ok   (growth cases, after the index has grown: ONE
 //!       `process_reindex` batch that wrote a record; followed by `physrec rec`, `physrec torn`, then
 //!       after enact_logs: `physrec enact` -> ok if the record had a D token, and always
@@ -40,9 +45,114 @@ use std::path::Path;
 
 type Key = [u8; 32];
 
-fn options(path: &Path) -> Options {
+/// column kind, as r5.rs `Kind`
+#[derive(Clone, Copy, PartialEq, Eq, Debug)]
+enum Kind {
+	Plain,
+	Preimage,
+	Rc,
+}
+
+impl Kind {
+	fn name(self) -> &'static str {
+		match self {
+			Kind::Plain => "plain",
+			Kind::Preimage => "preimage",
+			Kind::Rc => "rc",
+		}
+	}
+}
+
+const LOCKED: u64 = u32::MAX as u64;
+
+/// oracle cell: key -> (value token, count)
+type Content = HashMap<Key, (String, u64)>;
+
+/// The documented semantics of one operation per column kind (copied from r5.rs `oracle_apply`,
+/// independent of the Lean model).
+fn oracle_apply(kind: Kind, c: &mut Content, op: &Op) {
+	match op {
+		Op::Set(k, v) => match kind {
+			Kind::Plain => {
+				c.insert(*k, (v.clone(), 1));
+			},
+			Kind::Preimage => {
+				c.entry(*k).or_insert((v.clone(), 1));
+			},
+			Kind::Rc => match c.get_mut(k) {
+				Some(e) => e.1 = if e.1 >= LOCKED - 1 { LOCKED } else { e.1 + 1 },
+				None => {
+					c.insert(*k, (v.clone(), 1));
+				},
+			},
+		},
+		Op::Ref(k) =>
+			if kind == Kind::Rc {
+				if let Some(e) = c.get_mut(k) {
+					e.1 = if e.1 >= LOCKED - 1 { LOCKED } else { e.1 + 1 };
+				}
+			},
+		Op::Deref(k) => match kind {
+			Kind::Plain | Kind::Preimage => {
+				c.remove(k);
+			},
+			Kind::Rc => {
+				let gone = match c.get_mut(k) {
+					Some(e) =>
+						if e.1 == LOCKED {
+							false
+						} else if e.1 <= 1 {
+							true
+						} else {
+							e.1 -= 1;
+							false
+						},
+					None => false,
+				};
+				if gone {
+					c.remove(k);
+				}
+			},
+		},
+	}
+}
+
+/// Stored counter of every live value by stored key tail (key[6..32]), read from the table files
+/// of a drained handle through the hooks `verif_dump` / `verif_table_entry` (as r5.rs
+/// `stored_counts`).
+fn stored_counts(db: &Db) -> Result<HashMap<Vec<u8>, u64>, String> {
+	let d = db.verif_dump(0, true).map_err(|e| format!("verif_dump failed: {:?}", e))?;
+	let mut out = HashMap::new();
+	for tb in &d.tables {
+		for s in &tb.slots {
+			if s.1 == 1 {
+				let raw = db.verif_table_entry(0, tb.tier, s.0).map_err(|e| format!("verif_table_entry failed: {:?}", e))?;
+				let off = if tb.multipart { 10 } else { 2 };
+				let rc = u32::from_le_bytes(raw[off..off + 4].try_into().unwrap()) as u64;
+				if out.insert(s.3.clone(), rc).is_some() {
+					return Err(format!("two live values with the key tail {}", hex(&s.3)))
+				}
+			}
+		}
+	}
+	Ok(out)
+}
+
+/// the value a key is "supposed" to have (preimage contract, as r5.rs `contract_token`): on
+/// preimage / rc columns every Set of a key carries this token
+fn contract_token(k: &Key, multipart: bool) -> String {
+	let mut r = Rng::new(u32::from_be_bytes(k[8..12].try_into().unwrap()) as u64 ^ 0xabcd);
+	gen_token(&mut r, multipart)
+}
+
+fn options(path: &Path, kind: Kind) -> Options {
 	let mut o = Options::with_columns(path, 1);
-	o.columns[0] = ColumnOptions { uniform: true, preimage: false, ref_counted: false, ..Default::default() };
+	o.columns[0] = ColumnOptions {
+		uniform: true,
+		preimage: kind != Kind::Plain,
+		ref_counted: kind == Kind::Rc,
+		..Default::default()
+	};
 	o.salt = Some([0u8; 32]);
 	o.with_background_thread = false;
 	o.always_flush = true;
@@ -265,6 +375,7 @@ fn gen_token(rng: &mut Rng, multipart: bool) -> String {
 enum Op {
 	Set(Key, String),
 	Deref(Key),
+	Ref(Key),
 }
 
 // ------------------------------------------------------------------------------ torn enact
@@ -356,9 +467,29 @@ fn obs_get(db: &Db, k: &Key) -> String {
 	}
 }
 
+/// `get`, or with the stored counters of a drained rc column `getrc` (format of `r5 getrc`)
+fn obs_read(db: &Db, k: &Key, counts: Option<&HashMap<Vec<u8>, u64>>) -> String {
+	let counts = match counts {
+		Some(c) => c,
+		None => return obs_get(db, k),
+	};
+	match (db.get(0, k), counts.get(&k[6..32].to_vec())) {
+		(Ok(Some(v)), Some(rc)) => format!("some {} rc={}", show_val(&v), rc),
+		(Ok(Some(v)), None) => format!("some {} rc=?", show_val(&v)),
+		(Ok(None), _) => "none".to_string(),
+		(Err(e), _) => format!("err:{}", err_kind(&e)),
+	}
+}
+
 fn one_case(seed: u64, thorough: bool, root: &Path, t: &mut Trace, ctr: &mut Counters, prop: &str, purge: bool) -> bool {
 	let mut rng = Rng::new(seed);
 	let growth = seed % 6 == 0;
+	let kind = match seed % 6 {
+		1 => Kind::Rc,
+		2 => Kind::Preimage,
+		_ => Kind::Plain,
+	};
+	let kn = kind.name();
 	let keys = gen_pool(&mut rng, growth);
 	let ntx = if thorough {
 		rng.range(100, 140)
@@ -367,8 +498,16 @@ fn one_case(seed: u64, thorough: bool, root: &Path, t: &mut Trace, ctr: &mut Cou
 	} else {
 		rng.range(25, 35)
 	};
-	t.begin_case(&format!("seed={} physrec keys={} txs={} growth={}", seed, keys.len(), ntx, if growth { 1 } else { 0 }));
+	t.begin_case(&format!(
+		"seed={} physrec keys={} txs={} growth={} kind={}",
+		seed,
+		keys.len(),
+		ntx,
+		if growth { 1 } else { 0 },
+		kn
+	));
 	ctr.inc("cases");
+	ctr.inc(&format!("kind.{}.cases", kn));
 	ctr.inc(if growth { "cases.growth" } else { "cases.no_growth" });
 	let mut case_grew = false;
 	for k in ["rec.index_bits_not_16", "values.multipart", "rec.tokens.other_action", "rec.no_new_record", "torn.mismatch", "finding.wrong_read"] {
@@ -376,15 +515,22 @@ fn one_case(seed: u64, thorough: bool, root: &Path, t: &mut Trace, ctr: &mut Cou
 	}
 	let sizes = parity_db::verif::entry_sizes();
 	let dir = fresh_dir(root, &format!("physrec-{}", seed));
-	let db = Db::open_or_create(&options(&dir)).expect("create");
-	t.op(&format!("physrec init 16 {}", if purge { "purge" } else { "nopurge" }), "ok");
+	let db = Db::open_or_create(&options(&dir, kind)).expect("create");
+	let pg = if purge { "purge" } else { "nopurge" };
+	if kind == Kind::Plain {
+		t.op(&format!("physrec init 16 {}", pg), "ok");
+	} else {
+		t.op(&format!("physrec initk 16 {} {}", kn, pg), "ok");
+	}
 	let mut ok = true;
 	let mut vals: HashMap<String, Vec<u8>> = HashMap::new();
-	let mut oracle: HashMap<Key, String> = HashMap::new();
+	let mut oracle: Content = HashMap::new();
 	let mut records = 0u64;
-	let exp_get = |oracle: &HashMap<Key, String>, vals: &HashMap<String, Vec<u8>>, k: &Key| -> String {
+	// expected answer of `get` (rc = false) / `getrc` (rc = true)
+	let exp_get = |oracle: &Content, vals: &HashMap<String, Vec<u8>>, k: &Key, rc: bool| -> String {
 		match oracle.get(k) {
-			Some(tok) => format!("some {}", show_val(&vals[tok])),
+			Some((tok, c)) if rc => format!("some {} rc={}", show_val(&vals[tok]), c),
+			Some((tok, _)) => format!("some {}", show_val(&vals[tok])),
 			None => "none".to_string(),
 		}
 	};
@@ -426,7 +572,13 @@ fn one_case(seed: u64, thorough: bool, root: &Path, t: &mut Trace, ctr: &mut Cou
 		let mut tx: Vec<Op> = vec![];
 		while tx.len() < nops {
 			// growth cases: mostly Sets, mostly of keys that are not stored yet (fills the chunk)
-			let set = if growth {
+			let mut is_ref = false;
+			let set = if kind == Kind::Rc {
+				// set 45% / deref 35% / ref 20%
+				let r = rng.below(100);
+				is_ref = r >= 80;
+				r < 45
+			} else if growth {
 				rng.chance(9, 10)
 			} else if oracle.len() * 2 < keys.len() {
 				// more Sets while the pool is mostly empty
@@ -441,12 +593,14 @@ fn one_case(seed: u64, thorough: bool, root: &Path, t: &mut Trace, ctr: &mut Cou
 			};
 			let k = if absent.is_empty() { *rng.pick(&keys) } else { *rng.pick(&absent) };
 			if tx.iter().any(|o| match o {
-				Op::Set(k2, _) | Op::Deref(k2) => *k2 == k,
+				Op::Set(k2, _) | Op::Deref(k2) | Op::Ref(k2) => *k2 == k,
 			}) {
 				continue
 			}
-			if set {
-				let tok = gen_token(&mut rng, thorough);
+			if is_ref {
+				tx.push(Op::Ref(k));
+			} else if set {
+				let tok = if kind == Kind::Plain { gen_token(&mut rng, thorough) } else { contract_token(&k, thorough) };
 				vals.entry(tok.clone()).or_insert_with(|| expand_token(&tok));
 				tx.push(Op::Set(k, tok));
 			} else {
@@ -474,15 +628,33 @@ fn one_case(seed: u64, thorough: bool, root: &Path, t: &mut Trace, ctr: &mut Cou
 					if len > 32760 {
 						ctr.inc("values.multipart");
 					}
-					oracle.insert(*k, tok.clone());
+					ctr.inc(&format!("kind.{}.op.set", kn));
 					dbtx.push((0u8, Operation::Set(k.to_vec(), vals[tok].clone())));
 				},
 				Op::Deref(k) => {
 					t.op(&format!("physrec deref {}", hex(k)), "ok");
-					ctr.inc(if oracle.contains_key(k) { "op.deref.present" } else { "op.deref.absent" });
-					oracle.remove(k);
+					ctr.inc(match oracle.get(k) {
+						None => "op.deref.absent",
+						Some((_, c)) if *c > 1 => "op.deref.count_down",
+						Some(_) => "op.deref.present",
+					});
+					ctr.inc(&format!("kind.{}.op.deref", kn));
 					dbtx.push((0u8, Operation::Dereference(k.to_vec())));
 				},
+				Op::Ref(k) => {
+					t.op(&format!("physrec ref {}", hex(k)), "ok");
+					ctr.inc(if oracle.contains_key(k) { "op.ref.present" } else { "op.ref.absent" });
+					ctr.inc(&format!("kind.{}.op.ref", kn));
+					dbtx.push((0u8, Operation::Reference(k.to_vec())));
+				},
+			}
+			oracle_apply(kind, &mut oracle, op);
+			if let Some((_, c)) = oracle.get(match op {
+				Op::Set(k, _) | Op::Deref(k) | Op::Ref(k) => k,
+			}) {
+				if *c > 1 {
+					ctr.inc("rc.count_above_1_after_op");
+				}
 			}
 		}
 		ctr.inc("op.commit");
@@ -606,6 +778,7 @@ fn one_case(seed: u64, thorough: bool, root: &Path, t: &mut Trace, ctr: &mut Cou
 			ctr.add("rec.reindex.index_entries", ent);
 		}
 		ctr.inc("rec.compared");
+		ctr.inc(&format!("kind.{}.rec.compared", kn));
 		ctr.add("rec.tokens.index", idx.len() as u64);
 		ctr.add("rec.tokens.value", val.len() as u64);
 		ctr.add("rec.index_entries", ent);
@@ -661,7 +834,7 @@ fn one_case(seed: u64, thorough: bool, root: &Path, t: &mut Trace, ctr: &mut Cou
 				ctr.inc("torn.partial_write");
 			}
 			ctr.add("torn.writes_skipped_no_file", skipped);
-			let r = std::panic::catch_unwind(std::panic::AssertUnwindSafe(|| Db::open(&options(&copy))));
+			let r = std::panic::catch_unwind(std::panic::AssertUnwindSafe(|| Db::open(&options(&copy, kind))));
 			match r {
 				Ok(Ok(db2)) => {
 					torn = Some(keys.iter().map(|k| obs_get(&db2, k)).collect());
@@ -710,18 +883,33 @@ fn one_case(seed: u64, thorough: bool, root: &Path, t: &mut Trace, ctr: &mut Cou
 			continue
 		}
 
-		// ---- reads
+		// ---- reads (rc columns: value and stored counter, `getrc`)
+		let counts = if kind == Kind::Rc {
+			match stored_counts(&db) {
+				Ok(c) => Some(c),
+				Err(e) => {
+					t.oracle_fail(prop, &format!("tx {}: {}", txi, e));
+					ok = false;
+					None
+				},
+			}
+		} else {
+			None
+		};
 		for _ in 0..2 {
 			let k = *rng.pick(&keys);
-			let obs = obs_get(&db, &k);
-			let exp = exp_get(&oracle, &vals, &k);
+			let obs = obs_read(&db, &k, counts.as_ref());
+			let exp = exp_get(&oracle, &vals, &k, counts.is_some());
 			ctr.inc(if obs == "none" { "op.get.none" } else { "op.get.some" });
 			if obs != exp {
 				t.oracle_fail(prop, &format!("tx {}: get {} expected {} observed {}", txi, hex(&k), exp, obs));
 				ctr.inc("finding.wrong_read");
 				ok = false;
 			}
-			t.op(&format!("physrec get {}", hex(&k)), &obs);
+			t.op(&format!("physrec {} {}", if counts.is_some() { "getrc" } else { "get" }, hex(&k)), &obs);
+			if counts.is_some() {
+				ctr.inc("op.getrc");
+			}
 		}
 		if growth && case_grew && rng.chance(1, 3) {
 			next_is_reindex = true;
@@ -731,16 +919,38 @@ fn one_case(seed: u64, thorough: bool, root: &Path, t: &mut Trace, ctr: &mut Cou
 		ctr.inc(if obs_stat(&db).older.is_empty() { "cases.reindex_finished" } else { "cases.reindex_unfinished" });
 	}
 	// final sweep over the pool
+	let counts = if kind == Kind::Rc {
+		match stored_counts(&db) {
+			Ok(c) => {
+				if c.len() != oracle.len() {
+					t.oracle_fail(prop, &format!("final: {} live value chains for {} live keys", c.len(), oracle.len()));
+					ctr.inc("finding.leak");
+					ok = false;
+				}
+				Some(c)
+			},
+			Err(e) => {
+				t.oracle_fail(prop, &format!("final: {}", e));
+				ok = false;
+				None
+			},
+		}
+	} else {
+		None
+	};
 	for k in &keys {
-		let obs = obs_get(&db, k);
-		let exp = exp_get(&oracle, &vals, k);
+		let obs = obs_read(&db, k, counts.as_ref());
+		let exp = exp_get(&oracle, &vals, k, counts.is_some());
 		ctr.inc(if obs == "none" { "op.get.none" } else { "op.get.some" });
 		if obs != exp {
 			t.oracle_fail(prop, &format!("final: get {} expected {} observed {}", hex(k), exp, obs));
 			ctr.inc("finding.wrong_read");
 			ok = false;
 		}
-		t.op(&format!("physrec get {}", hex(k)), &obs);
+		t.op(&format!("physrec {} {}", if counts.is_some() { "getrc" } else { "get" }, hex(k)), &obs);
+		if counts.is_some() {
+			ctr.inc("op.getrc");
+		}
 	}
 	drop(db);
 	let _ = std::fs::remove_dir_all(&dir);
